@@ -41,7 +41,7 @@ Live(o, wr)  == { p \in Pids(wr) : KSt(o, p) = "run" }
 AllTracked(o) == UNION { Pids(o.w[i]) : i \in WIdx(o) }
 Decode(ws)   == IF ws % 128 # 0 THEN -(ws % 128) ELSE (ws \div 256) % 256
 
-EnvKinds   == {"tick", "req", "die", "extkill", "dsig", "fork", "probe", "end", "boot", "spawnfault"}
+EnvKinds   == {"tick", "req", "die", "extkill", "dsig", "fork", "probe", "end", "boot", "spawnfault", "sockev"}
 InjKinds   == {"die", "extkill", "sigdeath", "fork"}     \* what the environment may do in the middle of a callback
 StimKinds  == {"die", "extkill", "sigdeath", "dsig", "fork", "boot", "spawnfail", "block", "exc"}
 ROCmds     == {"status", "list", "numprocesses", "numwatchers", "options", "stats", "dstats", "get",
@@ -739,6 +739,9 @@ KF(c, g, o, ln, o2, g2) ==
                \/ (o.slot \in {"watcher_reload", "arbiter_reload"} /\ (~g.op.graceful \/ g.op.seq))
          THEN "D1"
          ELSE IF g.op.cmd = "start" /\ g.op.slot \in {"watcher_start", "arbiter_start_watchers"} THEN "D2"
+         \* D18: an on_demand watcher that still has a live worker was set to "stopped" when another one died; the next
+         \* socket event "starts" it, and _start's reap_processes() blocks on the live worker
+         ELSE IF CfgW(g, OwnerOf(g, ln.p)).od /\ o.slot = "manage_watchers" THEN "D18"
          ELSE ""
     [] c = "C04_count" ->
          IF \A j \in 1..Len(ln.pb.per) :
@@ -763,6 +766,12 @@ KF(c, g, o, ln, o2, g2) ==
                   /\ g.t > g.term[p].t0 + g.term[p].G + 101) => p \in g.detached
          THEN "D3" ELSE ""
     [] c = "C14_siggate" -> IF ln.p \in g.vetoRaise THEN "D11" ELSE ""
+    [] c = "C09_startstop" ->     \* D18: an on_demand watcher is set to "stopped" without a stop event when a worker dies
+         IF /\ (ln.k = "ev" /\ ln.x = "start" /\ LastEvOf(g, ln.w) = "start") => CfgW(g, ln.w).od
+            /\ \A i \in WIdx(o2) :
+                  ((o2.w[i].st = "active" /\ LastEvOf(g, o2.w[i].ln) # "start")
+                     \/ (o2.w[i].st = "stopped" /\ LastEvOf(g, o2.w[i].ln) = "start")) => o2.w[i].od
+         THEN "D18" ELSE ""
     [] c = "C01_fresh" ->
          \* a replacement started by this very operation died before it completed
          IF \E p \in 1..NK(o2) : p > g.op.mark /\ OwnerOf(g2, p) # "" /\ KSt(o2, p) # "run" THEN "D14" ELSE ""
